@@ -760,6 +760,10 @@ func gitWarehouses(c *Ctx, op string) {
 	}
 	os.MkdirAll(filepath.Join(base, "plaindir"), 0755)
 	os.MkdirAll(filepath.Join(base, "objdir", "objects"), 0755) // a directory that merely holds an `objects` (a build tree)
+	// working trees whose `.git` is a file: a linked working tree, and a clone with a separate git directory
+	linked, sepwt := filepath.Join(base, "linked-wt"), filepath.Join(base, "sep-wt")
+	gitCmd(fresh, "worktree", "add", "-q", "--detach", linked, commit)
+	gitCmd(base, "clone", "-q", "--separate-git-dir", filepath.Join(base, "sep.git"), fresh, sepwt)
 	uf := api.MustParseFilesetUnpackFilter(losslessUnpackStr)
 	addr := func(p string) api.WarehouseLocation { return api.WarehouseLocation("file://" + p) }
 	for k, l := range [][]api.WarehouseLocation{
@@ -768,6 +772,9 @@ func gitWarehouses(c *Ctx, op string) {
 		{addr(filepath.Join(base, "missing")), addr(stale), addr(fresh)},
 		{addr(filepath.Join(base, "plaindir")), addr(fresh)},
 		{addr(filepath.Join(base, "objdir")), addr(fresh)},
+		{addr(linked)},
+		{addr(sepwt)},
+		{addr(stale), addr(linked)},
 		{addr(fresh), addr(stale)},
 	} {
 		for _, pm := range []rio.PlacementMode{rio.Placement_Direct, rio.Placement_Copy} {
